@@ -71,9 +71,20 @@ func image(c *c19Case) []byte {
 			b[i] = byte(stats.Hash(c.Seed, uint64(i)))
 		case 1:
 			b[i] = []byte{0x00, 0xFF, 0xFE, 0x1F, 0xD0, 0x0A, 0x0D, 0x1A}[i%8] // container magic, line ends, ^Z
+		case 3:
+			b[i] = 0x1A // CP/M end-of-file padding all the way
 		default:
 			b[i] = byte(i)
 		}
+	}
+	if c.Style == 4 && c.Len >= 8 {
+		// the image is itself a well-formed BIN container (e.g. the output of cim2bin fed to cim2cas)
+		start := int(c.Seed>>8) & 0xFFFF
+		if start+c.Len-7 > 0x10000 {
+			start = 0x10000 - (c.Len - 7)
+		}
+		end := start + c.Len - 8
+		copy(b, []byte{0xFE, byte(start), byte(start >> 8), byte(end), byte(end >> 8), byte(start), byte(start >> 8)})
 	}
 	return b
 }
@@ -255,12 +266,24 @@ func TestC19(t *testing.T) {
 			c.Len = rapid.IntRange(1, min(room, 8192)).Draw(t, "len")
 		}
 		c.Seed = rapid.Uint64().Draw(t, "seed")
-		c.Style = rapid.IntRange(0, 2).Draw(t, "style")
+		c.Style = rapid.IntRange(0, 4).Draw(t, "style")
+		if c.Style == 3 && rapid.Bool().Draw(t, "len128") {
+			c.Len = min(room, 128*rapid.IntRange(1, 8).Draw(t, "records")) // whole CP/M records ending in ^Z
+		}
 		printable := rapid.StringOfN(rapid.RuneFrom(nil, rapidPrintable()), 0, 12, -1)
 		c.Name = printable.Draw(t, "name")
 		if rapid.IntRange(0, 3).Draw(t, "nonascii") == 0 {
 			// names are byte strings for the container: multi-byte characters must still give a six-byte field
 			c.Name = rapid.StringOfN(rapid.RuneFrom([]rune("aZ9_éÿßテスﾄ漢€")), 1, 8, -1).Draw(t, "name8")
+		}
+		switch rapid.IntRange(0, 9).Draw(t, "blanks") {
+		case 0: // a name of blanks only is still a name
+			c.Name = "            "[:rapid.IntRange(1, 12).Draw(t, "nblank")]
+		case 1: // blanks inside / at the ends
+			c.Name = " " + c.Name + " "
+			if len(c.Name) > 12 {
+				c.Name = c.Name[:12]
+			}
 		}
 		if rapid.IntRange(0, 2).Draw(t, "stale") == 0 {
 			c.Stale = rapid.SampledFrom([]int{1, 7, 24, 100000, 70000}).Draw(t, "staleLen")
